@@ -73,6 +73,7 @@ func c18(r *core.Run) {
 
 	r.Rule("V1", "reference/data/delete vocabulary: prefix and suffix constants parse (with a placeholder id) to an object with exactly the members the unmarshalers and the store's valueObject declare; the delete-action literal is the same in service and store and uses the action constant; 'data' is the data-value member everywhere", 6)
 	r.Rule("V2", "envelopes: {result,resource,error}, {model,collection,query} and {get,call} have the same JSON member names in the service's response structs and the client package's parse structs", 3)
+	r.Rule("V3", "decoders own their bytes: no UnmarshalJSON method of the library keeps (a slice or byte-slice conversion of) its input parameter in the receiver - the json.Unmarshaler contract lets the caller reuse the buffer, after which a retained alias changes the value's JSON and its equality", 3)
 	r.Rule("B1", "buffer layout: each make([]byte,n) buffer in Ref.MarshalJSON, SoftRef.MarshalJSON and MarshalDataValue is exactly filled for every input length", 3)
 	r.Rule("B2", "escaping comes from the encoder: the only variable-length segment copied into those buffers is the first result of json.Marshal", 3)
 
@@ -194,6 +195,52 @@ func c18(r *core.Run) {
 	}
 	for _, pr := range pairs {
 		r.Check(pr.a == pr.b && pr.a != "", "V2", pr.what, "service-members==client-members", "-", "both sides use {"+pr.a+"}", "service writes {"+pr.a+"} but the client parses {"+pr.b+"}")
+	}
+
+	// ---- V3 --------------------------------------------------------------
+	for _, rel := range core.LibPkgs {
+		for _, fn := range p.FuncsOfPkg(rel) {
+			if fn.Name() != "UnmarshalJSON" || fn.Signature.Recv() == nil || len(fn.Params) != 2 || !isByteSlice(fn.Params[1].Type()) {
+				continue
+			}
+			data := fn.Params[1]
+			var aliases func(v ssa.Value, d int) bool
+			aliases = func(v ssa.Value, d int) bool {
+				if d > 6 || v == nil {
+					return false
+				}
+				switch x := v.(type) {
+				case *ssa.Parameter:
+					return x == data
+				case *ssa.Slice:
+					return aliases(x.X, d+1)
+				case *ssa.ChangeType:
+					return aliases(x.X, d+1)
+				case *ssa.Convert:
+					return isByteSlice(x.Type()) && isByteSlice(x.X.Type()) && aliases(x.X, d+1)
+				case *ssa.Phi:
+					for _, e := range x.Edges {
+						if e != v && aliases(e, d+1) {
+							return true
+						}
+					}
+				}
+				return false
+			}
+			bad := ""
+			for _, f2 := range withAnon(fn) {
+				for _, b := range f2.Blocks {
+					for _, in := range b.Instrs {
+						if st, ok := in.(*ssa.Store); ok && aliases(st.Val, 0) {
+							if f, ok := core.FieldOf(st.Addr); ok {
+								bad = f.String() + " at " + p.InstrPos(st)
+							}
+						}
+					}
+				}
+			}
+			r.Check(bad == "", "V3", core.FuncName(fn), "does-not-retain-input", p.Pos(fn.Pos()), "the input bytes are copied or only parsed, never kept", "UnmarshalJSON keeps its input slice in "+bad+": when the caller (json.Decoder, a read loop, a database item callback) reuses the buffer the decoded value silently changes - it marshals to other JSON and compares equal to different values")
+		}
 	}
 
 	// ---- B1 / B2 ---------------------------------------------------------
